@@ -50,7 +50,8 @@ def run(m):
         shutil.rmtree(d,ignore_errors=True)
 ap=argparse.ArgumentParser(); ap.add_argument('-k',default=''); ap.add_argument('-j',type=int,default=6); ap.add_argument('--list',action='store_true')
 a=ap.parse_args()
-ms=[m for m in mod.MUTANTS if a.k in m['name'] or a.k==m['prop']]
+import re
+ms=[m for m in mod.MUTANTS if re.search(a.k,m['name']) or a.k==m['prop']]
 if a.list:
     for m in ms: print(m['prop'],m['name'])
     sys.exit(0)
